@@ -16,10 +16,10 @@ H("selftest_seq", "SELF", "seq", ["harness/selftest_seq.cc"], what="core self-te
 
 # --- C11 ---------------------------------------------------------------------------------------
 H("c11_circbuf", "C11", "sched", ["harness/c11_circbuf.cc"], cxxflags=["-fno-access-control"],
-  args={"quick": ["--k=2"], "thorough": ["--k=4"]},
+  args={"quick": ["--k=2"], "thorough": ["--k=4", "--deadline=1200"]},
   what="real CircularBuffer/AtomicUniquePtr: 1..3 producers x 1..2 Add (both overloads) vs one consumer (4 programs), all interleavings within the preemption bound, spurious weak-CAS failures",
   design_ref="5/C11")
-H("c11_spinlock", "C11", "sched", ["harness/c11_spinlock.cc"], args={"quick": ["--k=3"], "thorough": ["--k=5"]},
+H("c11_spinlock", "C11", "sched", ["harness/c11_spinlock.cc"], args={"quick": ["--k=3"], "thorough": ["--k=5", "--deadline=400"]},
   what="real SpinLockMutex: 2..3 threads x programs over lock/try_lock/unlock, occupancy <= 1 in every state, every lock() returns (deadlock / livelock detection)",
   design_ref="5/C11")
 H("c11_tsan", "C11", "tsan", ["harness/c11_tsan.cc"], aux=True, args={"quick": ["300"], "thorough": ["3000"]},
@@ -29,11 +29,11 @@ H("c11_tsan", "C11", "tsan", ["harness/c11_tsan.cc"], aux=True, args={"quick": [
 BATCH_SDK = ["common", "version", "resource", "trace", "logs"]
 for _p in ("C01", "C02", "C03"):
     H("batch_" + _p.lower(), _p, "sched", ["harness/batch_harness.cc"], sdk=BATCH_SDK,
-      args={"quick": ["--oracle=" + _p, "--set=light", "--budget=100"], "thorough": ["--oracle=" + _p, "--set=light"]},
+      args={"quick": ["--oracle=" + _p, "--set=light", "--budget=100"], "thorough": ["--oracle=" + _p, "--set=light", "--budget=" + {"C01": "1400", "C02": "700", "C03": "600"}[_p]]},
       what="real BatchSpanProcessor and BatchLogRecordProcessor (with the real CircularBuffer) driven by producer / flusher / shutdown threads; oracle " + _p,
       design_ref="5/" + _p)
 H("batch_c02_heavy", "C02", "sched", ["harness/batch_harness.cc"], sdk=BATCH_SDK,
-  args={"quick": ["--oracle=C02", "--set=heavy", "--k=1", "--budget=40"], "thorough": ["--oracle=C02", "--set=heavy", "--k=2", "--t=1", "--c=0"]},
+  args={"quick": ["--oracle=C02", "--set=heavy", "--k=1", "--budget=40"], "thorough": ["--oracle=C02", "--set=heavy", "--k=2", "--t=1", "--c=0", "--budget=400"]},
   what="the configurations of the batch harness with the largest state spaces (two concurrent flushers, flushers + shutdown callers), explored with a smaller preemption bound",
   design_ref="5/C02")
 
